@@ -335,6 +335,9 @@ def r_return_exceptions(ctx: Ctx, rule: str, funcs=("flush", "gather_and_close")
                     continue
                 if n.op in ("reraise",):
                     continue
+                if n.op == "raise" and getattr(n.ast, "exc", 1) is None and all(lab[1][0] == CANCELLED for _, lab in n.succ if lab[0] == "x"):
+                    # `except CancelledError: ...; raise` hands on a cancellation that was on its way out anyway
+                    continue
                 if n.op == "await" and n.awaited is not None and n.awaited.kind == "pkg" and id(n) in _deleg:
                     # a helper that only gathers on our behalf: its gathers were judged above (as delegated waits)
                     hs = n.awaited.targets
